@@ -26,7 +26,7 @@ pub struct Case {
     pub run_range_api: bool,
 }
 
-pub const SETUPS: [(f64, f64, f64, u8, u8); 6] = [
+pub const SETUPS: [(f64, f64, f64, u8, u8); 8] = [
     // lat, lon, gmt, method, policy
     (39.0, -77.0, -5.0, 5, gen::P_NGD_FI_INV),
     (-33.9, 151.2, 10.0, 6, gen::P_NONE),
@@ -34,6 +34,9 @@ pub const SETUPS: [(f64, f64, f64, u8, u8); 6] = [
     (21.4, 39.8, 3.0, 7, gen::P_NONE),
     (-54.9, -67.6, -3.0, 6, gen::P_ANGLE),
     (0.0, 0.0, 0.0, 0, gen::P_NONE),
+    // policies that carry data (substitute latitude 48.5): the range route must treat them like the single-date route
+    (47.5, 8.5, 1.0, 6, gen::P_NL_FI_ALWAYS),
+    (60.2, 25.0, 2.0, 3, gen::P_NL_ALL),
 ];
 
 pub fn setup(i: u8) -> (Site, ParamSpec) {
@@ -146,6 +149,23 @@ fn check_case(c: &Case, st: &mut Stats) -> Result<(), Failure> {
             d = d + chrono::Duration::days(1);
         }
         st.class("range_api_compared");
+        // 4. the block (parallel) range API is a range API too: same entries for every threshold, also for empty and
+        //    reversed ranges (the machine's real parallelism is used; C15 owns the schedule perturbation)
+        if (c.k + c.setup as u32) % 3 == 0 && want_n <= 800 {
+            let thr = [0usize, 1, 7, 365][(c.k as usize / 3) % 4];
+            let blk = match catch(|| islamic_prayer_times::prayer_times_dt_rng_block(&params, loc, &range, thr)) {
+                Ok(m) => m,
+                Err(p) => return Err(Failure::new(format!("block-range-api-panic:{}", p), "no panic", format!("{} (threshold {})", p, thr))),
+            };
+            if blk != map {
+                return Err(Failure::new(
+                    "block-range-api:differs-from-range-api",
+                    format!("{} entries equal to the sequential range API (threshold {})", want_n, thr),
+                    format!("{} entries (first {:?}, last {:?})", blk.len(), blk.keys().next(), blk.keys().next_back()),
+                ));
+            }
+            st.class("block_range_api_compared");
+        }
     }
     Ok(())
 }
@@ -179,7 +199,7 @@ impl Prop for C14 {
             1 => (-40..=20i64).prop_map(|o| gen::ymd(1, 1, 1) + chrono::Duration::days(o)),
             1 => (-2000..=6000i32, 1u32..=12, 1u32..=28).prop_map(|(y, m, d)| gen::ymd(y, m, d)),
         ];
-        (start, 0u32..=64, 0u8..6, 0u8..10, 0.0..1.0f64, -3..=3i64)
+        (start, 0u32..=64, 0u8..8, 0u8..10, 0.0..1.0f64, -3..=3i64)
             .prop_map(|(start, k, setup, kind, u, jitter)| {
                 let kk = k.max(1) as i64;
                 let len: i64 = match kind {
@@ -229,7 +249,7 @@ impl Prop for C14 {
             let start = starts[(idx as usize) % starts.len()];
             let len = lens[(idx as usize) / starts.len()];
             for k in 0..=64u32 {
-                let c = Case { start, len, k, setup: (idx % 6) as u8, run_range_api: k == 0 };
+                let c = Case { start, len, k, setup: (idx % 8) as u8, run_range_api: k == 0 };
                 guarded(&c, || check_case(&c, st))?;
                 if (len > 0 && k >= 2) || len <= 0 {
                     st.nontrivial_enum(1);
